@@ -53,23 +53,35 @@ def stream_meas(ctx, built, ntables):
         t = gen_meas_table(R, ctx)
         F, kind = TS.build_real(t)
         m = measure_all(F)
-        dm, ent = m.dependency_matrix, m.entropy_1dim
         n = len(t["names"])
-        exp = " ".join(f2b(x) for x in ent) + " | " + " ".join(f2b(dm[i, j]) for i in range(n) for j in range(n))
-        S.count((repr(t["cols"]), repr(t["ap"])), any(dm[i, j] > 0 for i in range(n) for j in range(n) if i != j),
-                {"rows": t["n"], "styles": t["styles"], "entropy": [round(float(x), 3) for x in ent], "matrix": np.round(dm, 3).tolist()}, tag="/".join(sorted(t["styles"])))
-        case = {"rows": t["n"], "styles": t["styles"], "matrix": dm.tolist(), "entropy": ent.tolist()}
-        if not np.array_equal(dm, dm.T) or not all(dm[i, i] == 1.0 for i in range(n)):
-            ctx.oracle_fail("dependency matrix not symmetric with unit diagonal", case, "symmetric")
-        if (dm < 0).any() or (dm > 1).any():
-            ctx.oracle_fail(f"dependency matrix entry outside [0,1]: {dm.min()} .. {dm.max()}", case, "range")
-        if (ent < 0).any():
-            ctx.oracle_fail(f"negative entropy {ent.min()}", case, "entropy-sign")
-        if built:
-            got = TS.split_replies(drive(TS.forest_lines(t, F, kind) + ["measures"], timeout=900))
-            g = got[1][0] if len(got) > 1 and got[1] else "<missing>"
-            if g != exp:
-                S.mismatch({"rows": t["n"], "styles": t["styles"]}, g[:300], exp[:300])
+        # history on the same forest: the strategy computes its clustering context from it, then the measures are asked for again
+        try:
+            from syndiffix.clustering.strategy import DefaultClustering
+            DefaultClustering().build_clusters(F)
+        except Exception as e:
+            ctx.notes.append(f"DefaultClustering().build_clusters raised {type(e).__name__} on an S-meas forest")
+        m2 = measure_all(F)
+        g = None
+        for which, mm in (("first call", m), ("second call on the same forest, after DefaultClustering().build_clusters(forest)", m2)):
+            dm, ent = mm.dependency_matrix, mm.entropy_1dim
+            exp = " ".join(f2b(x) for x in ent) + " | " + " ".join(f2b(dm[i, j]) for i in range(n) for j in range(n))
+            if which == "first call":
+                S.count((repr(t["cols"]), repr(t["ap"])), any(dm[i, j] > 0 for i in range(n) for j in range(n) if i != j),
+                        {"rows": t["n"], "styles": t["styles"], "entropy": [round(float(x), 3) for x in ent], "matrix": np.round(dm, 3).tolist()}, tag="/".join(sorted(t["styles"])))
+            case = {"rows": t["n"], "styles": t["styles"], "matrix": dm.tolist(), "entropy": ent.tolist(), "call": which,
+                    "salt": t["ap"].salt.hex(), "cols": t["cols"] if t["n"] <= 300 else "seeded: " + repr((ctx.pid, ctx.seed))}
+            if not np.array_equal(dm, dm.T) or not all(dm[i, i] == 1.0 for i in range(n)):
+                ctx.oracle_fail(f"dependency matrix not symmetric with unit diagonal ({which})", case, "symmetric")
+            if (dm < 0).any() or (dm > 1).any():
+                ctx.oracle_fail(f"dependency matrix entry outside [0,1]: {dm.min()} .. {dm.max()} ({which})", case, "range")
+            if (ent < 0).any():
+                ctx.oracle_fail(f"negative entropy {ent.min()} ({which})", case, "entropy-sign")
+            if built:
+                if g is None:
+                    got = TS.split_replies(drive(TS.forest_lines(t, F, kind) + ["measures"], timeout=900))
+                    g = got[1][0] if len(got) > 1 and got[1] else "<missing>"
+                if g != exp:
+                    S.mismatch({"rows": t["n"], "styles": t["styles"], "call": which}, g[:300], exp[:300])
     ctx.obligation("correspondence S-meas (entropies + dependency matrix, bit-exact)", "correspondence", S.d["mismatches"] == 0, f"{S.d['mismatches']} mismatches")
 
 
